@@ -143,7 +143,11 @@ fn main() {
             let mut bad = 0;
             for run in from..to {
                 let t = generate(&pop, seed, run);
-                let problems = thr::run_free(&t);
+                let problems = if matches!(t.engine, Engine::Seq | Engine::Pair) {
+                    thr::run_free_seq(&t)
+                } else {
+                    thr::run_free(&t)
+                };
                 for p in &problems {
                     println!("MIRI-SCENARIO {} {} {}: {}", pop, seed, run, p);
                     bad += 1;
